@@ -274,13 +274,13 @@ def collect():
     if len(bases) != 1:
         raise TranslatorError(f"cannot find the all_legacy_base tuple in LegacyOpensslVersion.parse: {bases!r}")
     T["legacy_base"] = list(bases[0])
-    # cross-check by execution: the prefixes accepted by parse() among x.y.z with small components
+    # cross-check by execution: parse() accepts exactly the listed bases among x.y.z with small components
     for x in range(0, 4):
         for y in range(0, 10):
             for z in range(0, 12):
                 t = f"{x}.{y}.{z}"
                 ok = bool(vs.LegacyOpensslVersion.parse(t))
-                if ok != t.startswith(tuple(T["legacy_base"])):
+                if ok != (t in T["legacy_base"]):
                     raise TranslatorError(f"all_legacy_base does not explain parse({t!r})")
     import univers.debian as udeb
     import univers.gentoo as ugentoo
